@@ -15,6 +15,8 @@ FORMS = {
     "opt_ref": "Option<&'a {T}>",
     "qassoc": "<{T} as Tr>::A",
     "assoc": "{T}::A",
+    "qassoc_arg": "<u8 as Tr3<{T}>>::A",
+    "gat": "<u8 as Fam>::M<{T}>",
     "fnptr": "fn({T}) -> u8",
     "rawptr": "*const {T}",
     "phantom": "::core::marker::PhantomData<{T}>",
@@ -158,6 +160,10 @@ def debug_implicit_item(named, fields, fattrs):
 PRELUDE = r'''
 pub trait Tr { type A; }
 pub trait Tr2<T> {}
+pub trait Tr3<X> { type A; }
+impl<X> Tr3<X> for u8 { type A = W<X>; }
+pub trait Fam { type M<X>; }
+impl Fam for u8 { type M<X> = W<X>; }
 pub struct W<T>(pub T);
 impl<T: ::core::fmt::Display> ::core::fmt::Display for W<T> { fn fmt(&self, f: &mut ::core::fmt::Formatter<'_>) -> ::core::fmt::Result { self.0.fmt(f) } }
 impl<T: ::core::fmt::Debug> ::core::fmt::Debug for W<T> { fn fmt(&self, f: &mut ::core::fmt::Formatter<'_>) -> ::core::fmt::Result { self.0.fmt(f) } }
@@ -183,6 +189,8 @@ def holds(form, tr, x_fmt):
         return tr == "Debug"
     if form == "dyn":
         return False
+    if form in ("qassoc_arg", "gat"):
+        return x_fmt and tr in ("Display", "Debug", "LowerHex")
     if form in ("T", "ref", "wrapper"):
         return x_fmt and tr in ("Display", "Debug", "LowerHex") or (form == "ref" and tr == "Pointer")
     if form in ("array", "tuple", "vec", "opt_ref"):
@@ -285,7 +293,7 @@ def run(chk, tier):
 
     # ---------------- (B) rustc: sufficiency (compiles with no further bounds) and non-excess (unformatted params may be NoFmt)
     cases = []
-    bforms = ["T", "ref", "wrapper", "vec", "assoc", "rawptr", "phantom", "plain", "tuple"] + (["array", "opt_ref", "qassoc", "fnptr"] if thorough else [])
+    bforms = ["T", "ref", "wrapper", "vec", "assoc", "qassoc_arg", "gat", "rawptr", "phantom", "plain", "tuple"] + (["array", "opt_ref", "qassoc", "fnptr"] if thorough else [])
     for derive in ("Display", "Debug"):
         for named in (False, True):
             for n in (1, 2):
